@@ -2,6 +2,8 @@
 ASSUMPTIONS = ['activity decisions (analysis MLP, SILK VAD level) are arbitrary inputs: their relation to the signal is float DSP and not claimed']
 OUTSIDE = 'that digital silence makes the analysis report inactivity; decoder output energy during the gap; packet shape beyond the glue-level check'
 
+import os, importlib.util
+_s = importlib.util.spec_from_file_location('vt_glue', os.path.join(VERIF, 'props', '_glue.py')); _g = importlib.util.module_from_spec(_s); _s.loader.exec_module(_g)
 def obligations():
     L = []
     for steps in (1, 3):
@@ -13,4 +15,8 @@ def obligations():
                 functions=['silk_encode_do_VAD_FLP'], budget=300,
                 bounds='1..3 frames of one packet from any noSpeechCounter in [0,30], DTX on/off, any SILK activity level 0..255, any Opus activity decision',
                 stubs=['silk_VAD_GetSA_Q8: any activity level']))
+    for fsi, dur in [(4, 3), (2, 4), (0, 8)]:
+        L.append(_g.glue_ob(Ob, 'H3.glue_dtx_shape', fsi, dur, 'quick'))
+    for fsi, dur in [(f, d) for f in range(5) for d in range(9) if (f, d) not in [(4, 3), (2, 4), (0, 8)]][::4]:
+        L.append(_g.glue_ob(Ob, 'H3.glue_dtx_shape', fsi, dur, 'thorough'))
     return L
